@@ -319,6 +319,8 @@ func (w *World) ghostHyps(env *Env, stmts []CStmt, pc *pureCtx, self *Lemma) []s
 				pc.nassert++
 			}
 			hyps = append(hyps, g)
+		case *SForall:
+			hyps = append(hyps, w.forallHyps(cur, n)...)
 		case *SLet:
 			v := cur.tr(n.E)
 			cur = cur.child()
@@ -677,6 +679,30 @@ func (w *World) tryHint(env *Env, s CStmt) (hyps []string, ok bool) {
 		return out, true
 	case *SLet:
 		cfail("let is not allowed in a by-hint")
+	case *SForall:
+		return w.forallHyps(env, n), true
 	}
 	return nil, true
+}
+
+// forallHyps: forall-introduction over the lemma instances of the body.
+func (w *World) forallHyps(env *Env, n *SForall) []string {
+	c := env.child()
+	var binders, guards []string
+	for _, v := range n.Vars {
+		t := w.resolveType(env.pkg, v.Type)
+		s := w.sortOf(t)
+		name := "q_" + v.Name
+		c.vars[v.Name] = Val{S: name, Sort: s, T: t}
+		c.bound[name] = true
+		binders = append(binders, "("+name+" "+s+")")
+		if t != mathInt {
+			guards = append(guards, w.typeFacts(name, t)...)
+		}
+	}
+	body := w.ghostHyps(c, n.Body, nil, nil)
+	if len(body) == 0 {
+		return nil
+	}
+	return []string{"(forall (" + strings.Join(binders, " ") + ") " + simplies(sand(guards...), sand(body...)) + ")"}
 }
